@@ -21,7 +21,7 @@ FILES = {"main": "main.asm", "inc": "inc.asm", "other": "other.asm", "cfg": "mos
 
 TEXTS = {
     "ma": '.import * from "inc.asm"\nfoo: {\n  lda bar // é汉 x\u2192y\n  bar: nop\n}\n  lda foo.bar\n  sta ext\n',
-    "mb": '/// entry\nfoo: {\n  lda baz\n  baz: rts\n}\nfoo2: lda foo.baz // ü\U0001F600 tail \u2192here\u2026\n.const c1 = 4 /* é\n é */ + 2\n  ldx #c1\n.const seg = "default"\nsc: {\n  .const seg = "default"\n  .segment seg {\n    tbl: .byte 1, 2\n  }\n}\n',
+    "mb": '/// entry\nfoo: {\n  lda baz\n  baz: rts\n}\nfoo2: lda foo.baz // ü\U0001F600 tail \u2192here\u2026\n.const c1 = 4 /* é\n é */ + 2\n  ldx #c1\n.const seg = "default"\nsc: {\n  .const seg = "default"\n  .segment seg {\n    tbl: .byte 1, 2\n    .segment seg { tb2: nop }\n  }\n}\n',
     "mx": '.import * from "inc.asm"\nfoo: {\n  lda (\n  bar: nop\n}\n  sta ext\n',
     "ia": "ext: nop\n",
     "ib": ".import * from \"inc2.asm\"\n/// doc ñ\next: rts\nother2: .byte 1 // ñ \u2014dash\n.segment \"default\" {\n  itbl: .byte 3\n}\n  lda deep\n.test \"t1\" {\n  brk\n}\n",
@@ -583,6 +583,8 @@ def main(tier):
               [om, ("close", "main.asm"), ("disk", "main.asm", "mb"), ("open", "main.asm", "mb", TEXTS["mb"])]]
     scripts = [("fixed", sc, "A") for sc in fixed] + [("disk", script_of_hist(h), "A") for lay, h in dhists] + [("tlc", script_of_hist(h), lay) for lay, h in hists] + [("sim", script_of_hist(h), lay) for lay, h in longer]
     nty, nrand = (60, 120) if tier == "quick" else (600, 1000)
+    if os.environ.get("VERIF_C14_FIXED_ONLY"):      # (diagnosis: only the fixed sessions)
+        scripts, nty, nrand = scripts[:len(fixed)], 0, 0
     scripts += [("typing", typing_script(rnd, i), "A") for i in range(nty)]
     scripts += [("random", random_script(rnd, i, "AB"[i % 2]), "AB"[i % 2]) for i in range(nrand)]
     V.log("[C14] %d sessions (%d exhaustive histories, %d simulated, %d typing, %d random)" % (len(scripts), len(hists), len(longer), nty, nrand))
